@@ -14,6 +14,11 @@ MAP = [  # (substring of the commit subject, property)
  ("None return value of complex type", "C02"), ("ModelBase.to_bytes", "C02"),
  ("null member of complex type", "C02"), ("members of a class used more than once", "C03"),
  ("strict_arrays rejected arrays", "C03"), ("SOAP 1.2 fault whose detail dict", "C09"),
+ ("Ignored return value of a method with several", "C18"), ("NullServer misaligned the members", "C18"),
+ ("bare methods lost their argument in dict documents", "C18"),
+ ("unexpanded entity reference in a request", "C17"), ("SOAP-with-attachments requests were parsed", "C17"),
+ ("Soap12 could not serialize a schema validation fault", "C10"),
+ ("tens of thousands of attributes", "C17"),
  ("xsi:type values whose namespace prefix is not bound", "C16"),
  ("SOAP output dropped the namespace declaration", "C16"),
  ("order of schema types and xs:import", "C07"), ("WSDL header and fault message references", "C07"),
